@@ -63,7 +63,7 @@ Interval<Boundary, Info>::upper_extend(const C& c) {
   bool open;
   switch (c.rel()) {
   case V_LGE:
-    return lower_extend();
+    return upper_extend();
   case V_NAN:
     return I_NOT_EMPTY | I_EXACT | I_UNCHANGED;
   case V_LT:
